@@ -44,7 +44,7 @@ theorem tree_agrees (l : List Node) (hl : l ≠ []) :
       simp only [List.map_cons] at ihb ⊢
       simp only [treeO, ihb, Option.map_some, Option.some.injEq, andThen]
       rw [pick_no_none _ _ h3 rfl]
-      simp only [h1, h2, h3, hintTree, List.all_cons, Bool.or_false]
+      simp only [h1, h2, h3, hintTree, List.all_cons, Bool.or_false, Bool.and_false, Bool.false_and]
 
 
 theorem stack_agrees (st : Stack) (hne : st ≠ []) : stackHintV (st.map viewOf) = stackHint st := by
@@ -58,5 +58,12 @@ has no upper bound — while without the `None` the same tree publishes no bound
 theorem f32_witness :
     stackHintV [noneV, filtV (some 1), filtV none] = some 1 ∧
     stackHintV [filtV (some 1), filtV none] = none := by decide
+
+/-- **C08.f33_repaired** — a group of subscribers is "not there" only if ALL its members are (the repair of F33): an empty `Vec`
+below the group `plain.and_then(None).and_then(plain)` publishes no bound.  Before the repair the none marker was found in
+EITHER branch, the whole group counted as absent and the stack published OFF — silencing two layers that accept everything. -/
+theorem f33_repaired :
+    (andThen noneV (andThen (andThen plainV noneV) plainV)).hint = none ∧
+    (andThen noneV (andThen (andThen plainV noneV) plainV)).none = false := by decide
 
 end C08
